@@ -994,6 +994,22 @@ func (x *treeExec) run(tr *traceWriter) {
 		}
 		tr.emit(map[string]interface{}{"ev": "URLPath", "reg": reg, "known": known, "vals": vals, "withopt": u.WithOpt,
 			"out": encBytes(out), "panicked": panicked})
+		if !panicked {
+			// the SAME argument slice once more: building a URL does not consume or rearrange the caller's pairs
+			out2, panicked2 := "", false
+			func() {
+				defer func() {
+					if r := recover(); r != nil {
+						panicked2 = true
+					}
+				}()
+				out2 = x.f.URLPath(name, pairs...)
+			}()
+			if out2 != out || panicked2 {
+				tr.emit(map[string]interface{}{"ev": "URLPath", "reg": reg, "known": known, "vals": vals, "withopt": u.WithOpt,
+					"out": encBytes(out2), "panicked": panicked2})
+			}
+		}
 	}
 }
 
